@@ -24,6 +24,8 @@ CONSTANTS Unit,        \* denominator of fixed weights
           Svc,         \* service names
           TagSets,     \* tag sets a target can carry
           SelTags,     \* tag sets a `route weight` command can select on ({} = none)
+          Ops,         \* kinds of commands a history may contain after the first adds: subset of {"weight", "add", "del"}
+          MaxInit,     \* targets added before the first other command
           MaxTargets, MaxCmds,
           MaxSlots     \* ring resolution (10 000 in fabio; small in the ring model)
 
@@ -111,17 +113,36 @@ Weigh(t, s, sel, w) ==
 WeighCmds == {c \in [svc : Svc \cup {""}, sel : SelTags, w : WC] : c.svc # "" \/ c.sel # {}}
 ASSUME \A w \in WC, n \in 1..MaxTargets : w > 0 => w % n = 0     \* shares divide exactly
 
+\* route del <svc> <src>  /  route del [<svc>] tags "...": the selected targets leave the route,
+\* the others keep their order.  route add ...: a further target joins at the end.
+\* The traffic split is a function of the targets the route HAS (Eff(Vec(tg), i)), whatever
+\* history of add / del / weight commands produced them.
+RECURSIVE Without(_, _, _)
+Without(t, m, i) == IF i > Len(t) THEN <<>> ELSE (IF i \in m THEN <<>> ELSE <<t[i]>>) \o Without(t, m, i + 1)
+Del(t, s, sel) == Without(t, Selected(t, s, sel), 1)
+DelCmds == {c \in [svc : Svc \cup {""}, sel : SelTags] : c.svc # "" \/ c.sel # {}}
+
 Targets == [svc : Svc, tags : TagSets, k : WU]
-InitTargets == UNION {[1..n -> Targets] : n \in 1..MaxTargets}
+InitTargets == UNION {[1..n -> Targets] : n \in 1..MaxInit}
+ASSUME MaxInit <= MaxTargets
 
 ResetRing == /\ cnt = <<>> /\ order = <<>> /\ ring = <<>> /\ oi = 0 /\ k = 0 /\ next = 0 /\ step = 0
              /\ cursor = 0 /\ picks = <<>> /\ npicks = 0
 Init == tg \in InitTargets /\ tg0 = tg /\ cmds = <<>> /\ pc = "cfg" /\ ResetRing
 
-DoWeigh(c) == /\ pc = "cfg" /\ Len(cmds) < MaxCmds
+\* a command of the history, as logged: [op, svc, sel (tags of an added target), w (its fixed weight)]
+DoWeigh(c) == /\ "weight" \in Ops /\ pc = "cfg" /\ Len(cmds) < MaxCmds
               /\ tg' = Weigh(tg, c.svc, c.sel, c.w)
-              /\ cmds' = Append(cmds, c)
+              /\ cmds' = Append(cmds, [op |-> "weight", svc |-> c.svc, sel |-> c.sel, w |-> c.w])
               /\ UNCHANGED <<tg0, pc, ringvars>>
+DoAdd(t) == /\ "add" \in Ops /\ pc = "cfg" /\ Len(cmds) < MaxCmds /\ Len(tg) < MaxTargets
+            /\ tg' = Append(tg, t)
+            /\ cmds' = Append(cmds, [op |-> "add", svc |-> t.svc, sel |-> t.tags, w |-> t.k])
+            /\ UNCHANGED <<tg0, pc, ringvars>>
+DoDel(c) == /\ "del" \in Ops /\ pc = "cfg" /\ Len(cmds) < MaxCmds
+            /\ tg' = Del(tg, c.svc, c.sel)
+            /\ cmds' = Append(cmds, [op |-> "del", svc |-> c.svc, sel |-> c.sel, w |-> 0])
+            /\ UNCHANGED <<tg0, pc, ringvars>>
 
 -----------------------------------------------------------------------------
 \* Part 3.  Slot counts on a ring of MaxSlots: floor(MaxSlots * w), at least 1 for w > 0.
@@ -198,7 +219,7 @@ Done == pc = "done" /\ UNCHANGED vars
 Next == (\E c \in WeighCmds : DoWeigh(c)) \/ Build \/ Target \/ Probe \/ Place \/ Pick \/ Done
 Spec == Init /\ [][Next]_vars /\ WF_vars(Next)
 \* the configuration part alone (route add / route weight, no ring)
-CfgNext == \E c \in WeighCmds : DoWeigh(c)
+CfgNext == (\E c \in WeighCmds : DoWeigh(c)) \/ (\E t \in Targets : DoAdd(t)) \/ (\E c \in DelCmds : DoDel(c))
 CfgSpec == Init /\ [][CfgNext]_vars
 
 -----------------------------------------------------------------------------
@@ -206,7 +227,14 @@ CfgSpec == Init /\ [][CfgNext]_vars
 CountIn(q, x) == Cardinality({i \in 1..Len(q) : q[i] = x})
 
 \* every weight vector reachable through add / weight commands has non-negative weights that sum to one
-WeightInv == LET v == Vec(tg) IN WeightsOK(v) /\ HonouredAsGiven(v) /\ Proportional(v) /\ DynamicEqual(v)
+WeightInv == tg # <<>> => LET v == Vec(tg) IN WeightsOK(v) /\ HonouredAsGiven(v) /\ Proportional(v) /\ DynamicEqual(v)
+\* `route del` removes exactly the selected targets and keeps the order of the others
+DelInv == \A c \in DelCmds :
+            LET t2 == Del(tg, c.svc, c.sel)  m == Selected(tg, c.svc, c.sel) IN
+            /\ Len(t2) + Cardinality(m) = Len(tg)
+            /\ Selected(t2, c.svc, c.sel) = {}
+            /\ \A i, j \in 1..Len(tg) : (i < j /\ i \notin m /\ j \notin m) =>
+                    \E a, b \in 1..Len(t2) : a < b /\ t2[a] = tg[i] /\ t2[b] = tg[j]
 \* `route weight` gives the selected targets together the share w and touches nothing else
 WeighInv == \A c \in WeighCmds :
               LET t2 == Weigh(tg, c.svc, c.sel, c.w)  m == Selected(tg, c.svc, c.sel) IN
